@@ -137,6 +137,25 @@ def regen():
     return True, "", stats
 
 
+def build_vo_logged(target):
+    """make one .vo; returns (ok, log of the compilation that produced the current .vo).
+    The log (with the Print Assumptions output) is cached next to the build so that an up-to-date file is
+    not recompiled just to see it again."""
+    logp = os.path.join(CACHE, "coqlog", target.replace("/", "_") + ".log")
+    os.makedirs(os.path.dirname(logp), exist_ok=True)
+    vo = os.path.join(COQ, target)
+    ok, log = build_coq([target])
+    compiled = ("COQC " + target[:-1]) in log
+    if ok and not compiled:
+        if os.path.exists(logp) and os.path.getmtime(logp) >= os.path.getmtime(vo):
+            return True, open(logp).read()
+        os.remove(vo)                      # no log of this .vo: compile it once more
+        ok, log = build_coq([target])
+    if ok:
+        open(logp, "w").write(log)
+    return ok, log
+
+
 def build_driver():
     """extract the model and build the OCaml driver when the model sources changed."""
     srcs = files_under(os.path.join(COQ, "Alg"), (".v",)) + files_under(os.path.join(COQ, "Sem"), (".v",)) \
@@ -174,10 +193,7 @@ def coq_obligations(prop):
             banned.append("%s: %s" % (os.path.relpath(f, ROOT), m.group(1)))
     refine_files = REFINE.get(prop, [])
     with CoqLock():
-        vo = os.path.join(COQ, "Props", prop + ".vo")
-        if os.path.exists(vo):
-            os.remove(vo)  # force Print Assumptions output
-        ok, log = build_coq(["Props/%s.vo" % prop] + cfg.get("extra_vo", []))
+        ok, log = build_vo_logged("Props/%s.vo" % prop)
         closed = log.count("Closed under the global context")
         axioms = re.findall(r"^Axioms:\n((?:.+\n)+)", log, re.M)
         for n in names:
@@ -199,10 +215,7 @@ def coq_obligations(prop):
             vfile = os.path.join(COQ, "Refine", rf + ".v")
             rsrc = open(vfile).read()
             rnames = re.findall(r"^\s*(?:Lemma|Theorem)\s+((?:r_|source_|model_)\w+)", rsrc, re.M)
-            rvo = os.path.join(COQ, "Refine", rf + ".vo")
-            if os.path.exists(rvo):
-                os.remove(rvo)
-            rok, rlog = build_coq(["Refine/%s.vo" % rf])
+            rok, rlog = build_vo_logged("Refine/%s.vo" % rf)
             rclosed = rlog.count("Closed under the global context")
             expected = len(re.findall(r"^Print Assumptions", rsrc, re.M))
             good = rok and not banned and rclosed >= expected
